@@ -446,11 +446,41 @@ func init() {
 							openedAt = vrt.NowNs()
 							s.Write([]byte{1, 2, 3})
 						}
+					case "accept":
+						// the accepting side is idle (the client's only open stream has never carried a frame);
+						// the first frame of a new stream reaches it at the very instant its timer fires
+						keeper, err := r.cli.OpenStream()
+						if err != nil {
+							vrt.Fail("no-error-on-healthy-session", "OpenStream: %v", err)
+						}
+						_ = keeper
+						time.Sleep(T)
+						st, err := r.cli.OpenStream()
+						if err != nil {
+							return // the idle accepting side timed out first and told the client: nothing to judge
+						}
+						st.Write([]byte{1, 2, 3})
 					case "idle":
 					}
 				})
+				var accepted *Stream
+				var acceptedAt int64
+				if op == "accept" {
+					vrt.Go("acceptor", func() {
+						if conn, err := r.srv.Accept(); err == nil {
+							accepted, acceptedAt = conn.(*Stream), vrt.NowNs()
+						}
+					})
+				}
 				wg.Wait()
 				time.Sleep(T / 2) // well before any later timer
+				if op == "accept" {
+					if accepted != nil && r.srv.IsClosed() && r.srv.TerminalMsg() == "timeout" {
+						vrt.Fail("timeout-only-without-streams", "Accept handed out a stream at t=%v that its user never closed, yet the session closed itself with reason \"timeout\"", time.Duration(acceptedAt))
+					}
+					vrt.Observe("accepted=%v srvClosed=%v msg=%q", accepted != nil, r.srv.IsClosed(), r.srv.TerminalMsg())
+					return
+				}
 				cliTimedOut := r.cli.IsClosed() && r.cli.TerminalMsg() == "timeout"
 				if op == "idle" {
 					time.Sleep(T)
@@ -515,8 +545,12 @@ func init() {
 		jobs = append(jobs, vx.Job{Scenario: "mux.closerace", Params: vx.P("op", "open", "conns", "2"), Bound: b(1, 2), Weight: 5})
 		jobs = append(jobs, vx.Job{Scenario: "mux.count", Params: vx.P("delay", "1"), Bound: b(1, 3), Weight: 9})
 		jobs = append(jobs, vx.Job{Scenario: "mux.count", Params: vx.P("conns", "1"), Bound: b(1, 2), Weight: 9})
-		for _, op := range []string{"open", "reopen", "idle"} {
-			jobs = append(jobs, vx.Job{Scenario: "mux.timeout", Params: vx.P("op", op), Bound: b(2, 3), Weight: 4})
+		for _, op := range []string{"open", "reopen", "idle", "accept"} {
+			bd := b(2, 3)
+			if op == "accept" {
+				bd = b(1, 2)
+			}
+			jobs = append(jobs, vx.Job{Scenario: "mux.timeout", Params: vx.P("op", op), Bound: bd, Weight: 4})
 		}
 		for i := range jobs {
 			jobs[i].BudgetS = b(100, 900)
